@@ -17,6 +17,9 @@ var (
 	// produce an invalid result. In Golang, floating point division
 	// by zero produces +Inf, and modulo by zero produces NaN.
 	ErrDivideByZero = fmt.Errorf("%w: division by zero", ErrPanic)
+	// ErrRangeValue is returned when the step of a numeric range is zero,
+	// which would never terminate.
+	ErrRangeValue = fmt.Errorf("%w: bad range value: step cannot be 0, infinite loop", ErrPanic)
 	// ErrBadRepetition is returned when the right-hand side of the array
 	// repetition operator is invalid; i.e. negative or not an integer.
 	ErrBadRepetition = fmt.Errorf("%w: bad repetition count", ErrPanic)
@@ -258,6 +261,9 @@ func (vm *VM) Run() error {
 			index := vm.popNumVal()
 			step := vm.popNumVal()
 			stop := vm.popNumVal()
+			if step == 0 {
+				return ErrRangeValue
+			}
 			// stack overflow wont happen because we just popped these values
 			_ = vm.push(stop)
 			_ = vm.push(step)
